@@ -105,13 +105,16 @@ def run_case(case, ctx):
 
     cancel_free = method == 'multicomplex' or (method == 'complex' and order < 4)
     if kind in ('affine', 'smooth'):
+        # (f hands its vector back as an ndarray: a list or tuple makes the library's own f(x+h) - f(x-h) raise TypeError, a loud
+        # refusal that the statement - "returned as a length-m vector" - does not exclude)
+        wrap_out = np.array
         if kind == 'affine':
             def f(z):
-                return np.array([_dot(A[i], z, n) + b[i] for i in range(m)])
+                return wrap_out([_dot(A[i], z, n) + b[i] for i in range(m)])
             exact = A.astype(float)
         else:
             def f(z):
-                return np.array([np.sin(_dot(A[i], z, n)) * np.exp(_dot(B[i], z, n)) for i in range(m)])
+                return wrap_out([np.sin(_dot(A[i], z, n)) * np.exp(_dot(B[i], z, n)) for i in range(m)])
             sa, ca, eb = np.sin(A @ x), np.cos(A @ x), np.exp(B @ x)
             exact = ca[:, None] * A * eb[:, None] + sa[:, None] * eb[:, None] * B
         try:
